@@ -429,6 +429,23 @@ func runC02(c *fw.Ctx) {
 				{Kind: "Upload", Proto: "resumable", Bucket: "b1", Name: "big/o", Data: large, Meta: gcs.ObjMeta{ContentType: "application/octet-stream"}, Gzip: gzi,
 					Chunks: []GChunk{{Lo: 0, Hi: 262144, Total: n}, {Query: true, Total: n}, {Lo: 262144, Hi: n, Total: n}}},
 			}
+			// ... and a session of MANY chunks (more than any per-session list or counter is likely to be sized for):
+			// 150 chunks of 7 bytes, a status query after every 50th
+			{
+				many := large[:150*7]
+				var plan []GChunk
+				for i := 0; i < 150; i++ {
+					tot := -1
+					if i == 149 {
+						tot = len(many)
+					}
+					plan = append(plan, GChunk{Lo: i * 7, Hi: (i + 1) * 7, Total: tot})
+					if i%50 == 49 && i != 149 {
+						plan = append(plan, GChunk{Query: true, Total: -1})
+					}
+				}
+				ups = append(ups, GOp{Kind: "Upload", Proto: "resumable", Bucket: "b1", Name: "big/o", Data: many, Meta: gcs.ObjMeta{ContentType: "application/octet-stream"}, Gzip: gzi, Chunks: plan})
+			}
 			for _, up := range ups {
 				item++
 				if !c.Mine(item) {
